@@ -616,6 +616,7 @@ def run(tier):
                   'cpls: a<=3, b,c in {1,2,4} (size-capped), non powers of two must be refused',
                   'pitfall: every regular graph for (v,d) in (2,1),(3,2),(4,2),(4,3),(4,1); ny,nz in {2,3}; k in {2,4}',
                   'ram: s,k<=4, N<=%d; vdw: N<=%d, 2 colours k<=4 and 3 colours k<=3 incl. length 1; ptn: N<=%d' % ((6, 9, 60) if tier == 'quick' else (7, 11, 400))]
+    run.bounds += ["every fifth graph point is repeated with the graph given as a networkx object (reversed node/edge order, int and str 'bipartite' attributes), as a graph grown by update_vertex_number (by 2, by 3, from empty) and as a graph object with a past (refused insertions, refused bulk insertion, earlier use with one edge elsewhere)", 'size-threshold points of vlib/bigpoints.py (parameters around 10/11, 16/17, 32/33; satisfiable instances; equivalence only, 15 s solver budget, undecided ones counted as big_inconclusive)', 'one third of the points is built a second time, one third again after three calls with other arguments: all builds must agree']
     run.outside = ['larger parameters', 'pipe/tail/pitfall gadgets of the Pitfall formula are covered only by the global unsat verdict (their documentation is the paper)',
                    'satisfiability criterion for planted Knuth variants (no documented criterion)']
     run.assumptions = ['variable meaning is taken from the names reported by all_variable_labels()', 'z3 is sound',
